@@ -10,7 +10,7 @@
 (* no parentheses added at all, a C20 source whose tree is not predicted.     *)
 EXTENDS Grammar, Json
 
-CONSTANTS MaxOps, MaxOdd, Prods, Ctxs, MinLen
+CONSTANTS MaxOps, MaxOdd, Prods, Ctxs, OddCtxs, MinLen
 
 VARIABLES deriv, pending
 vars == <<deriv, pending>>
@@ -34,7 +34,9 @@ Expand(p) ==
   /\ CanExpand(deriv, pending, p, Prods, MaxOps, MaxOdd)
   /\ deriv' = Append(deriv, p)
   /\ pending' = Holes(p) \o Tail(pending)
-  /\ (pending' = <<>> /\ Len(deriv') >= MinLen) => \A c \in Ctxs : Case(FromDeriv(deriv'), c)
+  \* trees with a leaf that is not a plain name are exported in the contexts OddCtxs only
+  /\ (pending' = <<>> /\ Len(deriv') >= MinLen) =>
+        \A c \in (IF CountIn(deriv', OddLeaves) = 0 THEN Ctxs ELSE OddCtxs) : Case(FromDeriv(deriv'), c)
 
 Next == \E p \in Prods \cup {"lname"} : Expand(p)
 Spec == Init /\ [][Next]_vars
